@@ -88,3 +88,14 @@ claim("C11", "other",
       "= traditional, equal counts = pooled unweighted. Known finding F-9 reported by its own clause.",
       TB + "np.cov(aweights=) external; A-PERM (order independence is sampled, not proved).",
       "contract-based deductive verification of the weight construction (loop invariant over ghost prefix sums) + native evaluation of the weighted-estimator contracts", "DESIGN.md 5/C11")
+
+claim("C06", "other",
+      "Structural obligations read from the AST of _frequency_domain_window_rejection: the iteration is a for-loop over range(1, max_iterations+1) "
+      "(terminates, at most max_iterations iterations), every return inside it returns the iteration counter, the fall-through exit returns "
+      "max_iterations, and masks are written only under the `currently accepted` guard (a rejected window is never re-accepted). Bounded / "
+      "cross-check (labelled): accept/reject decisions and iteration count equal an independent re-implementation of Cox et al. (2020) for all "
+      "four distribution pairs, n in {0.5..2.5}, max_iterations in {1,2,3,50}, two kinds of search range, crafted exact-zero cases; "
+      "window-order and amplitude-scale invariance; the azimuthal maximum. The driver's callees (statistics accessors) are vectorised numpy "
+      "outside the PyVC subset, so no value-level obligation is claimed as proved.",
+      TB + "Cases whose decision sits on a bound within rounding (or whose convergence quantities are zero only up to rounding) are set aside by the oracle.",
+      "structural contract obligations on the AST + bounded native comparison with an independent re-implementation of the published algorithm", "DESIGN.md 5/C06")
